@@ -701,9 +701,9 @@ def check_file(chk, c, out, stats):
 def run(chk, model_ok):
     rng = chk.rng
     thorough = chk.tier == "thorough"
-    narr = 9000 if thorough else 1500
-    nmal = 600 if thorough else 120
-    nfile = 400 if thorough else 60
+    narr = 6000 if thorough else 1500
+    nmal = 400 if thorough else 120
+    nfile = 300 if thorough else 60
     cases = corpus_cases()
     weights = [f["weight"] for f in FAMILIES]
     for _ in range(narr):
